@@ -91,6 +91,25 @@ fn main() {
             x => fails.push(format!("round {r}: timed park with an unparker: {x:?}")),
         }
         h.join().unwrap();
+        // 6. timeouts the clock cannot represent (Duration::MAX, as Semphore / Condvar / SyncFlag::wait_timeout forward
+        //    them unchanged): the park waits for its unpark like an untimed one, it neither panics nor times out
+        for d in [Duration::MAX, Duration::from_secs(u64::MAX / 4), Duration::from_secs(1 << 40)] {
+            let b2 = b.clone();
+            let h = std::thread::spawn(move || {
+                std::thread::sleep(ms(8));
+                b2.unpark();
+            });
+            let t = Instant::now();
+            let b3 = b.clone();
+            match std::panic::catch_unwind(std::panic::AssertUnwindSafe(move || b3.park(Some(d)))) {
+                Ok(Ok(())) if t.elapsed() < ms(3000) => {}
+                Ok(x) => fails.push(format!("round {r}: park({d:?}) with an unparker: {x:?} after {:?}", t.elapsed())),
+                Err(_) => fails.push(format!("round {r}: park({d:?}) PANICKED instead of waiting for its unpark")),
+            }
+            h.join().unwrap();
+            // the late unpark of a panicked park may have left a token behind: drain it
+            let _ = b.park(Some(ms(1)));
+        }
     }
     for f in &fails {
         println!("ORACLE {f}");
